@@ -1383,6 +1383,17 @@ class World(object):
                 x = getattr(ao, f)(axis=axis)
             elif route == 'np':
                 x = npf(ao, axis=axis)
+            elif f == 'sum' and op.get('legacy'):
+                # the older public spelling of the same reduction: fxp_sum(x, sizes=, axis=, dtype=, out=)
+                kw2 = {}
+                if 'out' in kwargs:
+                    kw2['out'] = kwargs['out']
+                elif op.get('legacy') == 'dtype':
+                    kw2['dtype'] = 'fxp-%s%d/%d' % ('s' if ao.signed else 'u', min(ao.n_word + 4, 60), ao.n_frac)
+                else:
+                    kw2['sizes'] = {'same': 'same_sizes', 'fit': 'tight_sizes'}.get(kwargs.get('sizing'), 'best_sizes')
+                self.bump('reduce_fxp_sum')
+                x = fxf.fxp_sum(ao, axis=axis, **kw2)
             else:
                 x = getattr(fxf, fname)(ao, axis=axis, **kwargs)
         k = self.finish_new(st, x, origin='reduce')
@@ -1398,8 +1409,12 @@ class World(object):
         st.srcs = [a]
         reg = ao.config.array_op_out
         self.plan_register(st, reg)
+        # negative / absolute / square and the statistics are arithmetic on the operand: their result
+        # carries the operand's inaccuracy like any other arithmetic result (floor and sign are not judged)
+        prop = [a] if op['f'] in ('negative', 'absolute', 'square', 'mean', 'std', 'var') else []
         st.store = Store('dest' if st.dest is not None else 'new', route='npfunc', judge_cb=False,
-                         judge_flags=False)
+                         judge_flags=False, prop=prop, arith=op['f'])
+        st.extra['arith_route'] = 'np'
         yield
         if op['f'] in ('mean', 'std', 'var') and op.get('route') == 'method':
             x = getattr(self.obj(a), op['f'])()
